@@ -47,6 +47,30 @@ def _one_step(kind):
     return ob
 
 
+def _one_step_batched(kind):
+    """the one-step lemma for a mixture-style prior with K components and Ny alternative observed values at once: the three
+    routes give the same K*Ny posteriors in the same layout (component k*Ny + n)"""
+    def ob(w):
+        xp = w.xp
+        Dy = "Dy"
+        Dx = "Dy" if kind.startswith("identity") else "Dx"
+        h = SP.gen_cond_handle(w, kind, "c", 1, Dy, Dx)
+        prior, px = SP.gen_pdf(w, "x", "K", Dx)
+        y = w.arr("y", "Ny", Dy)
+        x = w.arr("x", "N", Dx)
+        post_a = h.call("affine_conditional_transformation", prior).condition_on_x(y)      # REAL  [K*Ny]
+        lik = h.call("set_y", y)                                                            # REAL  [Ny]
+        post_c = prior.multiply(lik, update_full=True).get_density()                        # REAL  [K*Ny]
+        joint = h.call("affine_joint_transformation", prior)                                # REAL  [K]
+        post_b = joint.condition_on(w.block_index([Dx, Dy], [1])).condition_on_x(y)         # REAL  [K*Ny]
+        for nm, q in (("(b)joint+condition_on", post_b), ("(c)product+normalise", post_c)):
+            w.equal(f"posterior/{nm}=(a)/mu", q.mu, post_a.mu)
+            w.equal(f"posterior/{nm}=(a)/Sigma", q.Sigma, post_a.Sigma)
+            w.equal(f"posterior/{nm}=(a)/ln_det_Sigma", q.ln_det_Sigma, post_a.ln_det_Sigma)
+            w.equal(f"posterior/{nm}=(a)/density", q.evaluate_ln(x), post_a.evaluate_ln(x))
+    return ob
+
+
 def _two_obs():
     def ob(w):
         xp = w.xp
@@ -166,6 +190,10 @@ def _register():
         order = {} if kind.startswith("identity") else {("Dx", "Dy"): True}
         REG.ob(f"one-step/{SP.COND_CLS[kind]}", sorts=["Dy", "N"] + ([] if kind.startswith("identity") else ["Dx"]) + (["Du"] if kind == "nn" else []),
                order=order, funcs=F, lemmas=LEM, axioms=["G1 Gaussian integral"])(_one_step(kind))
+    for kind in ("full", "identity"):
+        order = {} if kind.startswith("identity") else {("Dx", "Dy"): True}
+        REG.ob(f"one-step-batched/{SP.COND_CLS[kind]}", sorts=["K", "Ny", "Dy", "N"] + ([] if kind.startswith("identity") else ["Dx"]),
+               order=order, funcs=F, lemmas=LEM)(_one_step_batched(kind))
     for kind in ("full", "identity", "nn"):
         REG.ob(f"batched-likelihood/{SP.COND_CLS[kind]}", sorts=["N", "Dy"] + ([] if kind.startswith("identity") else ["Dx"]) + (["Du"] if kind == "nn" else []),
                funcs=F + ["factor.ConjugateFactor.product"], lemmas=LEM, axioms=["G1 Gaussian integral"])(_batched_likelihood(kind))
